@@ -10,7 +10,7 @@
    checked on generated histories against the logical reference state of tools/session_spec.py (on the implementation) and
    refuted for two known defects (Findings/C09.v).  Stage 1 schema space of DESIGN Appendix A. *)
 Require Import PonyV.Model.SessionBase PonyV.Model.SessionDb PonyV.Model.Session.
-Require Import PonyV.Proofs.SessionDbPd PonyV.Proofs.SessionTxn PonyV.Proofs.SessionQueue PonyV.Proofs.SessionQueueInv PonyV.Proofs.SessionCoh.
+Require Import PonyV.Proofs.SessionDbPd PonyV.Proofs.SessionTxn PonyV.Proofs.SessionQueue PonyV.Proofs.SessionQueueInv PonyV.Proofs.SessionCoh PonyV.Proofs.SessionRefs.
 
 (* changes made after the last commit are never published by anything but a commit (or leaving the db_session, which commits):
    every other operation - including rollback, failing operations and every read with its auto-flush - leaves the committed database alone *)
@@ -110,6 +110,25 @@ Theorem C09_committed_scalars_except_known : forall sch, no_req_refs sch = true 
 Proof. exact committed_scalars_every_live_object. Qed.
 Print Assumptions C09_committed_scalars_except_known.
 
+(* PARTIAL - reference columns.  Proved: what the two writing statements put into a row (every schema, every state): an INSERT writes, for every
+   column attribute, the image of the object's value - for a reference the primary key of the object referred to -, an UPDATE does so for the written
+   attributes and keeps the other columns.  NOT proved (Proofs/SessionRefs.v, reference_columns_statement): that this is still so at commit, i.e. that the
+   referred object keeps a key, that no row refers to a principal when its DELETE runs (ON DELETE SET NULL would change a mirrored column) and that
+   loaded collections are complete; the three depend on each other and on the both-ends invariant. *)
+Theorem C09_reference_columns_partial : forall sch s o ob s' u, dbwf sch (s_db s) -> get_obj s o = Some ob ->
+  (save_created sch s o = Ok s' u ->
+   exists z r, obj_pk s' o = Some z /\ In r (tab (s_db s') (o_ent ob)) /\ r_pk r = z /\
+     forall a, (a < nattrs sch (o_ent ob))%nat -> attr_is_set sch (o_ent ob) a = false -> col r a = db_image s (oval ob a)) /\
+  (forall z, o_pk ob = Some z -> written_asg sch s ob <> [] -> save_updated sch s o = Ok s' u ->
+   exists r0 r, In r0 (tab (s_db s) (o_ent ob)) /\ r_pk r0 = z /\ In r (tab (s_db s') (o_ent ob)) /\ r_pk r = z /\
+     forall a, (a < nattrs sch (o_ent ob))%nat -> attr_is_set sch (o_ent ob) a = false ->
+       col r a = if owbit ob a then db_image s (oval ob a) else col r0 a).
+Proof.
+  intros sch s o ob s' u W G. split. intros S. exact (insert_writes_reference_keys sch s o ob s' u W G S).
+  intros z P NE S. exact (update_writes_reference_keys sch s o ob s' u z W G P NE S).
+Qed.
+Print Assumptions C09_reference_columns_partial.
+
 (* non-vacuity of the three statements: a schema without Required references, a clean history with an insert, a reload, an update and a delete;
    the last commit succeeds with something to save, and the surviving object (inserted, then updated) is there with its row *)
 Example C09_committed_scalars_nonvacuous :
@@ -134,4 +153,40 @@ Example C09_nonvacuous :
   tab (s_committed (run sch (firstn 7 ops))) 0 = [mkRow 1%Z [VInt 5%Z; VNone]] /\
   tab (s_committed (run sch ops)) 0 = [mkRow 1%Z [VInt 7%Z; VNone]] /\
   tab (s_committed (run sch ops)) 1 = [mkRow 1%Z [VInt 1%Z]; mkRow 2%Z [VInt 1%Z]].
+Proof. vm_compute. repeat split; reflexivity. Qed.
+
+(* ---- Stage 2 piece: many-to-many link sets (separate model coq/Model/SessionM2M.v: SetData items / added / removed on both sides, Set.load incl.
+   partial loads and prefetching, add / remove / assignment, _calc_modified_m2m + remove_m2m / add_m2m; fixed schema A.bs <-> B.as_, stored objects;
+   tied to real Pony + SQLite on generated histories by tools/session_m2m.py).  Every state, every operation. ---- *)
+Require Import PonyV.Model.SessionM2M PonyV.Proofs.SessionM2M.
+Theorem C09_m2m_committed_changes_only_at_commit : forall st op, op <> MCommit -> m_committed (fst (mstep st op)) = m_committed st.
+Proof. exact m2m_committed_changes_only_at_commit. Qed.
+Print Assumptions C09_m2m_committed_changes_only_at_commit.
+
+Theorem C09_m2m_commit_publishes : forall st,
+  m_committed (fst (mstep st MCommit)) = m_db (fst (mstep st MCommit)) /\ m_db (fst (mstep st MCommit)) = m_db (mflush st).
+Proof. exact m2m_commit_publishes. Qed.
+Print Assumptions C09_m2m_commit_publishes.
+
+Theorem C09_m2m_rollback_discards : forall st, let st' := fst (mstep st MRollback) in
+  m_db st' = m_committed st /\ m_committed st' = m_committed st /\ m_sd st' = [] /\ m_modified st' = false.
+Proof. exact m2m_rollback_discards. Qed.
+Print Assumptions C09_m2m_rollback_discards.
+
+(* the link rows a flush writes: the pairs removed in the A.bs views are deleted, the pairs added there are inserted, nothing else changes *)
+Theorem C09_m2m_flush_rows : forall st, m_modified st = true ->
+  let added := flat_map (fun a => map (fun b => (a, b)) (m_added (getsd' st 0 a))) (m_modc0 st) in
+  let removed := flat_map (fun a => map (fun b => (a, b)) (m_removed (getsd' st 0 a))) (m_modc0 st) in
+  m_db (mflush st) = filter (fun p => negb (existsb (key_eqb p) removed)) (m_db st) ++ added /\ m_modified (mflush st) = false /\
+  m_modc0 (mflush st) = [] /\ m_modc1 (mflush st) = [].
+Proof. exact m2m_flush_rows. Qed.
+Print Assumptions C09_m2m_flush_rows.
+
+Example C09_m2m_nonvacuous :
+  let st0 := minit 2 2 [(1, 1)]%nat in
+  let ops := [MRead 0 1; MAdd 0 1 [2]; MRead 1 2; MRemove 1 1 [1]; MRead 0 1; MFlush]%nat in
+  m_dirty (mrun st0 ops) = 0%nat /\
+  snd (mstep (mrun st0 [MRead 0 1; MAdd 0 1 [2]]%nat) (MRead 1 2)) = MList [1]%nat /\
+  m_db (mrun st0 ops) = [(1, 2)]%nat /\ m_committed (mrun st0 ops) = [(1, 1)]%nat /\
+  m_db (fst (mstep (mrun st0 ops) MRollback)) = [(1, 1)]%nat.
 Proof. vm_compute. repeat split; reflexivity. Qed.
